@@ -41,6 +41,12 @@ def small_cfg(rng, n_wfs):
     c["n_layers"] = min(c["n_layers"], 3)
     for k in ("layer_altitudes", "layer_r0s", "layer_L0s"):
         c[k] = c[k][:c["n_layers"]]
+    u = rng.random()
+    if u < 0.2 and c["n_layers"] >= 2:
+        c["n_layers"] -= 1                     # profile tables longer than n_layers: only the first n_layers count
+    elif u < 0.4:
+        c["wfs_wavelengths"] = np.asarray(c["wfs_wavelengths"], dtype=np.float32)     # single-precision parameter arrays
+        c["subap_diameters"] = np.asarray(c["subap_diameters"], dtype=np.float32)
     return c
 
 
